@@ -123,6 +123,8 @@ def gen_inputs(rng, tier):
     pool = ["0", "0 m", "0 K", "-273.15 °C", "-459.67 °F", "0 °C", "0 °F", "1 m", "2", "1 s", "273.15 K", "(0 K to °C)", "(0 K to °F)",
             "100 %", "0 %", "1 m/s", "0 m/s", "1 °C", "(1 - 1)", "0.0 kg", "-0", "1 km", "(-273.15 °C to K)", "pi", "(2 - 2) m",
             # unit spellings in which a unit cancels itself, with explicit powers one and zero
+            # magnitudes on both sides of the thresholds at which the display changes form
+            "1e-8", "1e-9", "1e-10", "3e-11", "1e-12", "1e-13", "1 / 3e10", "10 pm", "1e8", "1e11", "1e12", "1e13", "123456789012.5", "0.000000000123 m",
             "3 m/m^1", "3 km/km^1", "2 N s/s^1 N^1", "4 J/J^1", "3 m^1/m", "3 m*m^-1", "5 s^2/s^2", "2 m^0", "7 m/m", "1 s^1", "6 kg^0 m"]
     for a in pool:
         for b in pool:
@@ -158,6 +160,15 @@ def run(rng, tier, model_ok):
                 else:
                     stats["value_results"] += 1
         cases_all.append(cases)
+        # every value is displayed the way the program displays it (its digit limit and exponent threshold, translated from bin/any.rs)
+        lim, el, _ = qcorr.tables()["cli"]
+        vals = sorted({(x["ok"][0], x["ok"][1]) for r in replies for x in r.get("results", []) if "ok" in x and len(x["ok"][0]) < 400 and len(x["ok"][1]) < 400})
+        drep = vlib.run_impl(["D %s %s %d %d" % (n, d, lim, el) for n, d in vals], release=release)
+        for (n, d), r in zip(vals, drep):
+            if "text" not in r:
+                failures.append({"input": "%s/%s displayed with limit %d, threshold %d" % (n, d, lim, el), "mode": "release" if release else "debug",
+                                 "why": "a value cannot be displayed: %s" % str(r)[:200]})
+        stats["values_displayed"] = stats.get("values_displayed", 0) + len(vals)
     # the real binary on a sample: exit status 0 and no panic message
     sample = [s for s in rng.sample(inputs, min(len(inputs), 120 if tier == "quick" else 1500)) if s.strip() and not s.lstrip().startswith("-")]
     outs = vlib.run_any([["--", s] for s in sample])
